@@ -17,6 +17,8 @@ func init() {
 		Quick:      all("./proto", "./encoding/protojson", "./encoding/prototext", "./cmd/protoc-gen-go/internal_gengo", "./types/..."),
 		Thorough:   all("./..."),
 		Run: func(c *Ctx) {
+			c.ruleResetWrapper("R-RESET-WRAPPER")
+			c.ruleNestedMerge("R-NESTED-MERGE")
 			c.ruleResetFirst("R-RESET-FIRST")
 			c.ruleGenResetShape("R-GEN-RESET-SHAPE", 60)
 			c.ruleResetComplete("R-RESET-COMPLETE")
@@ -370,4 +372,38 @@ func recvObj(info *types.Info, fi *FuncInfo) types.Object {
 		return nil
 	}
 	return info.Defs[fi.Decl.Recv.List[0].Names[0]]
+}
+
+// R-RESET-WRAPPER: a wrapped legacy message without its own Reset method is
+// reset by overwriting the whole struct with its zero value (the counterpart
+// of the generated `*x = T{}`): known fields, oneof wrappers, extensions and
+// the unknown-field bytes all go at once. A field-by-field clear leaves
+// whatever it does not enumerate (XXX_unrecognized).
+func (c *Ctx) ruleResetWrapper(rule string) {
+	R, P := c.R, c.P
+	R.Rule(rule, "(*messageIfaceWrapper).Reset either delegates to the message's own Reset method or overwrites the whole struct with reflect.Zero of its type", 1)
+	fi := c.need(rule, "internal/impl.(*messageIfaceWrapper).Reset")
+	if fi == nil {
+		return
+	}
+	info := fi.Info()
+	delegates, zeroes := false, false
+	walk(fi.Decl.Body, func(n ast.Node) bool {
+		call, ok := n.(*ast.CallExpr)
+		if !ok {
+			return true
+		}
+		if se, ok := call.Fun.(*ast.SelectorExpr); ok && se.Sel.Name == "Reset" && len(call.Args) == 0 {
+			delegates = true
+		}
+		if calleeKey(info, call) == "reflect.Value.Set" && len(call.Args) == 1 {
+			if inner, ok := unparen(call.Args[0]).(*ast.CallExpr); ok && calleeKey(info, inner) == "reflect.Zero" {
+				if se, ok := call.Fun.(*ast.SelectorExpr); ok && strings.HasSuffix(exprStr(se.X), ".Elem()") {
+					zeroes = true
+				}
+			}
+		}
+		return true
+	})
+	R.Check(delegates && zeroes, rule, fi.Key, P.Pos(fi.Decl), "delegates to Reset() or overwrites the struct with its zero value", "the fallback of the legacy wrapper's Reset no longer overwrites the whole struct with its zero value: state that a field-by-field clear does not enumerate (unknown fields, extension map, size cache) survives Reset and a non-merging Unmarshal")
 }
